@@ -124,6 +124,9 @@ func specIsPrefix(a, b Name) bool { return len(a) <= len(b) && specEqPrefix(a, b
 // SpecIsPrefix: exported for contracts in other packages.
 func SpecIsPrefix(a, b Name) bool { return specIsPrefix(a, b) }
 
+// SpecEqName: exported for ghost code in other packages (what Name.Equal returns).
+func SpecEqName(a, b Name) bool { return specEqName(a, b) }
+
 //@ func (Name).Compare
 //@   ensures result == specCmpName(n, rhs)
 //@   loop 1 invariant 0 <= i && specCmpNameFrom(n, rhs, 0) == specCmpNameFrom(n, rhs, i)
@@ -307,6 +310,7 @@ func specStrFits(s string) bool { return len(s) <= 281474976710656 }
 //@ func (compValFmtInvalid).FromString
 
 //@ func (compValFmtDec).FromString
+//@   ensures [parses-decimal] forall(func(x uint64) bool { return s == SpecFmtU10(x) ==> (result1 == nil && specShortestNat(result0, x)) })
 
 //@ func (compValFmtHex).FromString
 //@   assume specStrFits(s)
